@@ -2624,7 +2624,8 @@ def gen_forms_cost(ctx, rng, name):
 
                 def ft(m, Dt=Dt):
                     return fn(m, Dt, mask)
-                twins.append(Twin(f'D={dt}', ft, None, f'C06/{name}/form:D={dt}', RT_DIR, 'form'))
+                # float32 data pull the routine's arithmetic into single precision (thorough seed 1: 1.5e-6 relative on a masked 3x7 case)
+                twins.append(Twin(f'D={dt}', ft, None, f'C06/{name}/form:D={dt}', RT_F32_NL if dt == 'float32' else RT_DIR, 'form'))
             ro = D.copy()
             ro.setflags(write=False)
             twins.append(Twin('D=read-only', lambda m: fn(m, ro, mask), None, f'C06/{name}/form:D=read-only', RT_DIR, 'form'))
